@@ -291,8 +291,8 @@ fn test_parse_http_status() {
     );
 }
 
-fn parse_number(input: &str) -> u64 {
-    input.parse().expect("should be an unsigned integer")
+fn parse_number(input: &str) -> Option<u64> {
+    input.parse().ok()
 }
 
 fn parse_quoted_string(input: &str) -> &str {
@@ -330,7 +330,10 @@ pub fn tokenize(loc: Locator, input: &str) -> (Option<TokenList<Token>>, Vec<Par
             Ok(kind) => {
                 let slice = &input[range.clone()];
                 let value = match kind {
-                    TokenKind::LiteralNumber => TokenValue::Number(parse_number(slice)),
+                    TokenKind::LiteralNumber => match parse_number(slice) {
+                        Some(number) => TokenValue::Number(number),
+                        None => TokenValue::None,
+                    },
                     TokenKind::LiteralString => {
                         TokenValue::Symbol(list.register(parse_quoted_string(slice)))
                     }
@@ -356,8 +359,17 @@ pub fn tokenize(loc: Locator, input: &str) -> (Option<TokenList<Token>>, Vec<Par
                     }
                     _ => TokenValue::None,
                 };
-                let token = Token(kind, value);
-                list.push(token, range);
+                match (kind, value) {
+                    // A number literal without a value is out of range.
+                    (TokenKind::LiteralNumber, TokenValue::None) => {
+                        let span = Span::new(loc.clone(), range);
+                        errors.push(ParserError::new(span));
+                    }
+                    (kind, value) => {
+                        let token = Token(kind, value);
+                        list.push(token, range);
+                    }
+                }
             }
             Err(_) => {
                 let span = Span::new(loc.clone(), range);
